@@ -177,11 +177,7 @@ func genRelInput(r *rand.Rand) relInput {
 	if r.Intn(10) == 0 {
 		return genRelPrereleaseGap(r)
 	}
-	n := 1 + r.Intn(12)
-	if r.Intn(5) == 0 {
-		n = 1 + r.Intn(3)
-	}
-	vs := genVersions(r, resolve.NPM, n)
+	vs := genVersions(r, resolve.NPM, genCount(r))
 	if r.Intn(20) == 0 {
 		vs = append(vs, pick(r, []string{"not-a-version", "c0d3f4c3", "1.x.y"}))
 	}
@@ -432,6 +428,12 @@ func runFixNpm(o *output, u *universe, m manifestSpec, vs []vulnSpec, cfg upgrad
 			s, nt := relCoq(cl, c.name, c.old, cfg.Get(c.name), relObs{OK: true, Version: c.new})
 			o.add(pre+"rcase", s, merge(info, map[string]any{"source": "in-situ (relax.ComputePatches on a traced manifest)", "pkg": c.name,
 				"req": c.old, "observed": relObs{OK: true, Version: c.new}, "nontrivial": nt}))
+		}
+	}
+	// (1b) the outer loop of relax.patchVulns, one traced call at a time
+	if err == nil && len(res0.Vulns) > 0 {
+		if runRelaxLoop(o, pre, cl, vm, m0, res0, cfg, &ro, info) {
+			return // FixVulns would run the same non-terminating call in a goroutine
 		}
 	}
 	// (2) the whole of FixVulns, judged on the re-resolved graphs
